@@ -2364,6 +2364,7 @@ def eqKeys (t : Tol) : List String → Fields → Fields → Except Exc Bool
         | .ok true => .ok false
         | .ok false => eqKeys t ks fa fb
         | .error .typeError => .ok false
+        | .error .valueError => .ok false
         | .error e => .error e
     | _, _ => .error .attributeError
 
@@ -2516,6 +2517,11 @@ theorem neV_symm (t : Tol) : ∀ (a b : V), wf a = true → wf b = true → neV 
     | skycoord =>
       cases kb <;> try rfl
       simp only [neV, neSky]
+      by_cases hx : atomOf (fa.get? "extra") = atomOf (fb.get? "extra")
+      swap
+      · have hx' : ¬ atomOf (fb.get? "extra") = atomOf (fa.get? "extra") := fun e => hx e.symm
+        simp [hx, hx']
+      simp only [hx, ne_eq, not_true_eq_false, if_false]
       by_cases hf : atomOf (fa.get? "frame") = atomOf (fb.get? "frame")
       · have hf' := hf.symm
         simp only [hf, ne_eq, not_true_eq_false, if_false]
